@@ -40,14 +40,14 @@ Definition check_case (c : case) : N :=
         | ONone => 0
         end in
       if negb (oc =? 0)%N then oc
-      else match EncodeABIDataValues params input, cls with
+      else match EncodeABIDataValues BigIntegerFromString params input, cls with
            | Ok b, 0%nat => if bytes_eqb (prefix ++ b) out then 0 else 1
            | Err _, 1%nat => 0
            | Panic, 2%nat => 0
            | _, _ => 2
            end
   | CParse params input cls tree =>
-      match walkInput (root_of params) input, cls, tree with
+      match walkInput BigIntegerFromString (root_of params) input, cls, tree with
       | Ok t, 0%nat, Some t' => if cval_eqb t t' then 0 else 3
       | Err _, 1%nat, _ => 0
       | Panic, 2%nat, _ => 0
